@@ -1,5 +1,6 @@
 #!/usr/bin/env python3
-"""arm64sim — a small interpreter for the subset of Go's arm64 assembly that internal/bytealg/count_*_arm64.s uses.
+"""arm64sim — a small interpreter for the subset of Go's arm64 assembly that internal/bytealg/*_arm64.s use (the byte
+count, the single-byte search and the first-non-ASCII search; wrappers included).
 
 The sandbox has no arm64 processor and no emulator, so the arm64 kernels cannot be executed; this interpreter runs the
 TEXT of the .s file (parsed on every run from /repo's working tree) instruction by instruction and compares what the
@@ -7,7 +8,7 @@ Count / CountString entry points return with the kernel's scalar definition, ove
 It is a SEARCH for a failing input (bounded, trusted only as far as its ~30 instruction semantics go), not a proof:
 the arm64 assembly is outside the Coq development (DESIGN section 8).
 
-  arm64sim.py <file.s>            sweep; prints one line per disagreement (at most 5) and a summary; exit 1 if any
+  arm64sim.py <file.s> [--quick]  sweep; prints one line per disagreement (at most 5) and a summary; exit 1 if any
   arm64sim.py <file.s> <hex s> <c> <align>   one run, prints the result of CountString and the definition
 """
 import re, sys
@@ -16,6 +17,10 @@ M64 = (1 << 64) - 1
 
 
 class Unsupported(Exception):
+    pass
+
+
+class OutOfBounds(Exception):
     pass
 
 
@@ -60,7 +65,8 @@ def parse(path):
 
 
 class Machine:
-    def __init__(self, texts, data, base, c, slot=0x7000):
+    def __init__(self, texts, data, base, c, slot=0x7000, junk=0):
+        self.junk = junk
         self.texts = texts
         self.R = {"R%d" % i: 0 for i in range(31)}
         self.V = {"V%d" % i: [0] * 16 for i in range(32)}
@@ -71,12 +77,25 @@ class Machine:
         self.steps = 0
 
     def load(self, addr, n):
-        off = addr - self.base
-        if off < 0 or off + n > len(self.data):
-            raise Unsupported("read outside the argument: %d bytes at offset %d of %d" % (n, off, len(self.data)))
-        return list(self.data[off:off + n])
+        """bytes of the argument; outside it, junk - allowed only inside an aligned 32-byte block that also holds a byte
+        of the argument (such a load cannot cross into another page)"""
+        out = []
+        lo, hi = self.base, self.base + len(self.data)
+        for a in range(addr, addr + n):
+            if lo <= a < hi:
+                out.append(self.data[a - lo])
+            else:
+                blk = a & ~31
+                if not (len(self.data) > 0 and blk < hi and blk + 32 > lo):
+                    raise OutOfBounds("read outside the argument: address offset %d of a %d-byte argument" % (a - lo, len(self.data)))
+                out.append(self.junk)
+        return out
 
     def val(self, o):
+        m = re.match(r"^(R\d+)(<<|>>)(\d+)$", o)
+        if m:
+            x, k = self.R[m.group(1)], int(m.group(3))
+            return ((x << k) & M64) if m.group(2) == "<<" else (x >> k)
         if o.startswith("$"):
             return int(o[1:], 0) & M64
         if o in self.R:
@@ -85,16 +104,35 @@ class Machine:
             return 0
         raise Unsupported("operand " + o)
 
-    def cond(self, cc):
-        a, b, kind = self.flags
-        if kind == "logic":
-            z = a == 0
-            return {"EQ": z, "NE": not z}[cc]
-        bits = 64 if kind == "cmp64" else 32
+    def set_sub(self, a, b, bits=64):
         mask = (1 << bits) - 1
         a &= mask
         b &= mask
-        return {"EQ": a == b, "NE": a != b, "LO": a < b, "LS": a <= b, "HI": a > b, "HS": a >= b}[cc]
+        r = (a - b) & mask
+        sa, sb, sr = a >> (bits - 1), b >> (bits - 1), r >> (bits - 1)
+        self.flags = {"n": sr == 1, "z": r == 0, "c": a >= b, "v": (sa != sb) and (sr != sa)}
+        return r
+
+    def set_add(self, a, b, bits=64):
+        mask = (1 << bits) - 1
+        a &= mask
+        b &= mask
+        full = a + b
+        r = full & mask
+        sa, sb, sr = a >> (bits - 1), b >> (bits - 1), r >> (bits - 1)
+        self.flags = {"n": sr == 1, "z": r == 0, "c": full > mask, "v": (sa == sb) and (sr != sa)}
+        return r
+
+    def cond(self, cc):
+        f = self.flags
+        if f is None:
+            raise Unsupported("branch on undefined flags")
+        if cc in ("EQ", "NE"):
+            return f["z"] == (cc == "EQ")
+        if f["c"] is None:
+            raise Unsupported("condition %s after a logical instruction" % cc)
+        return {"LO": not f["c"], "HS": f["c"], "HI": f["c"] and not f["z"], "LS": (not f["c"]) or f["z"],
+                "LT": f["n"] != f["v"], "GE": f["n"] == f["v"]}[cc]
 
     def run(self, entry):
         name, pc = entry, 0
@@ -155,6 +193,26 @@ class Machine:
                     self.R[dst] = self.val(src)
                     continue
                 raise Unsupported("%s %s" % (op, o))
+            if base_op in ("ADDS", "SUBS"):
+                a, b, d = o if len(o) == 3 else (o[0], o[1], o[1])
+                x, y = self.val(b), self.val(a)
+                self.R[d] = self.set_add(x, y) if base_op == "ADDS" else self.set_sub(x, y)
+                continue
+            if base_op in ("LSL", "LSR"):
+                k, s, d = o
+                kk = self.val(k) % 64
+                self.R[d] = ((self.val(s) << kk) & M64) if base_op == "LSL" else (self.val(s) >> kk)
+                continue
+            if base_op == "NEG":
+                self.R[o[1]] = (-self.val(o[0])) & M64
+                continue
+            if base_op == "RBIT":
+                self.R[o[1]] = int(format(self.val(o[0]), "064b")[::-1], 2)
+                continue
+            if base_op == "CLZ":
+                x = self.val(o[0])
+                self.R[o[1]] = 64 - x.bit_length()
+                continue
             if base_op in ("ADD", "SUB", "ORR", "AND", "BIC", "ANDS", "EOR"):
                 if len(o) == 2:
                     a, d = o
@@ -166,10 +224,10 @@ class Machine:
                 r = {"ADD": x + y, "SUB": x - y, "ORR": x | y, "AND": x & y, "ANDS": x & y, "BIC": x & ~y, "EOR": x ^ y}[base_op] & M64
                 self.R[d] = r
                 if base_op == "ANDS":
-                    self.flags = (r, 0, "logic")
+                    self.flags = {"n": (r >> 63) == 1, "z": r == 0, "c": None, "v": None}
                 continue
             if base_op in ("CMP", "CMPW"):
-                self.flags = (self.val(o[1]), self.val(o[0]), "cmp64" if base_op == "CMP" else "cmp32")
+                self.set_sub(self.val(o[1]), self.val(o[0]), 64 if base_op == "CMP" else 32)
                 continue
             if base_op == "CINC":
                 cc, s, d = o
@@ -191,7 +249,7 @@ class Machine:
                 return self.result
             # ---- vectors (16 byte lanes) ----
             def vreg(x):
-                m = re.match(r"^(V\d+)(\.B16|\.B8|\.D\[0\])?$", x)
+                m = re.match(r"^(V\d+)(\.B16|\.B8|\.D\[0\]|\.S4|\.D2)?$", x)
                 if not m:
                     raise Unsupported("vector operand " + x)
                 return m.group(1), m.group(2)
@@ -204,9 +262,12 @@ class Machine:
                 s, d = o
                 if s in self.R:
                     dn, arr = vreg(d)
-                    if arr != ".B16":
+                    if arr == ".B16":
+                        self.V[dn] = [self.R[s] & 255] * 16
+                    elif arr == ".S4":
+                        self.V[dn] = [(self.R[s] >> (8 * i)) & 255 for i in range(4)] * 4
+                    else:
                         raise Unsupported("VMOV arrangement")
-                    self.V[dn] = [self.R[s] & 255] * 16
                     continue
                 sn, arr = vreg(s)
                 if arr == ".D[0]" and d in self.R:
@@ -234,9 +295,15 @@ class Machine:
                 self.R[m.group(1)] = (self.R[m.group(1)] + 32) & M64
                 continue
             if base_op == "VADDP":
+                arr = vreg(o[2])[1]
                 mm, nn, d = (vreg(x)[0] for x in o)
                 cat = self.V[nn] + self.V[mm]
-                self.V[d] = [(cat[2 * i] + cat[2 * i + 1]) & 255 for i in range(16)]
+                if arr == ".D2":
+                    q = [sum(cat[8 * j + i] << (8 * i) for i in range(8)) for j in range(4)]
+                    r = [(q[0] + q[1]) & M64, (q[2] + q[3]) & M64]
+                    self.V[d] = [(r[j] >> (8 * i)) & 255 for j in range(2) for i in range(8)]
+                else:
+                    self.V[d] = [(cat[2 * i] + cat[2 * i + 1]) & 255 for i in range(16)]
                 continue
             if base_op == "VUADDLV":
                 s, d = vreg(o[0])[0], vreg(o[1])[0]
@@ -253,51 +320,90 @@ class Machine:
             raise Unsupported("instruction %s %s" % (op, ", ".join(o)))
 
 
-def definition(data, c):
-    letter = (65 <= c <= 90) or (97 <= c <= 122)
-    if letter:
-        return sum(1 for b in data if (b | 32) == (c | 32))
-    return sum(1 for b in data if b == c)
+def is_letter(c):
+    return (65 <= c <= 90) or (97 <= c <= 122)
 
 
-def count(texts, data, c, align, entry="CountString"):
-    base = 0x10000 + align
-    return Machine(texts, bytes(data), base, c).run(entry)
+def definition(kind, data, c):
+    if kind == "count":
+        return sum(1 for b in data if ((b | 32) == (c | 32) if is_letter(c) else b == c))
+    if kind == "index_byte":
+        for i, b in enumerate(data):
+            if ((b | 32) == (c | 32)) if is_letter(c) else b == c:
+                return i
+        return M64
+    for i, b in enumerate(data):
+        if b >= 128:
+            return i
+    return M64
 
 
-def sweep(path):
+KINDS = {"count": ("CountString", "Count"), "index_byte": ("IndexByteString", "IndexByte"), "index_non_ascii": ("IndexNonASCII", "IndexByteNonASCII")}
+
+
+def kind_of(texts):
+    for k, (a, b) in KINDS.items():
+        if a in texts and b in texts:
+            return k
+    raise Unsupported("no known entry points in this file")
+
+
+def call(texts, data, c, align, entry, junk=0):
+    return Machine(texts, bytes(data), 0x10000 + align, c, junk=junk).run(entry)
+
+
+def sweep(path, quick=False):
     texts = parse(path)
+    kind = kind_of(texts)
     bad, runs = [], 0
-    pats = [lambda i: 65, lambda i: 97, lambda i: (65, 97, 46, 0x61 ^ 0x80)[i % 4], lambda i: 32 + (i * 7) % 95]
-    for n in list(range(0, 70)) + [95, 96, 97, 127, 128, 129, 200]:
+    pats = [lambda i, n: 65, lambda i, n: 97, lambda i, n: (65, 97, 46, 0xe1)[i % 4], lambda i, n: 32 + (i * 7) % 95,
+            lambda i, n: 0x41 if i == n - 1 else 0x2e, lambda i, n: 0xc3 if i == n - 1 else 0x2e, lambda i, n: 0x2e]
+    needles = (97, 65, 46, 0xe1) if kind != "index_non_ascii" else (0,)
+    lengths = list(range(0, 70)) + [95, 96, 97, 127, 128, 129, 200]
+    if quick:
+        needles = needles[:1] + needles[2:3]
+        lengths = list(range(0, 36)) + [47, 48, 63, 64, 65, 66, 96, 97, 129]
+    for n in lengths:
         for align in range(32):
-            for pi, p in enumerate(pats):
-                data = bytes(p(i) for i in range(n))
-                for c in (97, 65, 46, 0x41 ^ 0x20 ^ 0x80):
-                    for entry in ("CountString", "Count"):
-                        runs += 1
-                        got = count(texts, data, c, align, entry)
-                        want = definition(data, c)
-                        if got != want:
-                            bad.append({"entry": entry, "s": data.hex(), "c": c, "align": align, "kernel": got, "definition": want})
-                            if len(bad) >= 5:
-                                return runs, bad
+            for p in pats:
+                data = bytes(p(i, n) for i in range(n))
+                for c in needles:
+                    for entry in KINDS[kind]:
+                        junks = (0,) if kind == "count" else (0, c if kind == "index_byte" else 0xff, (c ^ 32) & 255)
+                        for junk in (junks[1:2] or junks) if quick else junks:
+                            runs += 1
+                            try:
+                                got = call(texts, data, c, align, entry, junk)
+                            except OutOfBounds as e:
+                                got = "fault: %s" % e
+                            want = definition(kind, data, c)
+                            if got != want:
+                                bad.append({"entry": entry, "s": data.hex(), "c": c, "align": align, "junk": junk,
+                                            "kernel": got if isinstance(got, str) else (got if got < (1 << 63) else got - (1 << 64)),
+                                            "definition": want if want < (1 << 63) else want - (1 << 64)})
+                                if len(bad) >= 5:
+                                    return runs, bad
     return runs, bad
 
 
 if __name__ == "__main__":
-    if len(sys.argv) == 2:
+    if len(sys.argv) == 2 or (len(sys.argv) == 3 and sys.argv[2] == "--quick"):
         try:
-            runs, bad = sweep(sys.argv[1])
+            runs, bad = sweep(sys.argv[1], quick=len(sys.argv) == 3)
         except Unsupported as e:
             print("UNSUPPORTED %s" % e)
             sys.exit(3)
         for b in bad:
-            print("MISMATCH %s(s=%s, c=%d) with the data at address = %d mod 32: kernel %d, definition %d"
-                  % (b["entry"], b["s"], b["c"], b["align"], b["kernel"], b["definition"]))
+            print("MISMATCH %s(s=%s, c=%d) with the data at address = %d mod 32: kernel %s, definition %s (bytes around the argument: %d)"
+                  % (b["entry"], b["s"], b["c"], b["align"], b["kernel"], b["definition"], b["junk"]))
         print("runs=%d mismatches=%d" % (runs, len(bad)))
         sys.exit(1 if bad else 0)
     texts = parse(sys.argv[1])
+    kind = kind_of(texts)
     data = bytes.fromhex(sys.argv[2])
     c, align = int(sys.argv[3]), int(sys.argv[4])
-    print("kernel=%s definition=%d" % (count(texts, data, c, align), definition(data, c)))
+    entry = sys.argv[5] if len(sys.argv) > 5 else KINDS[kind][0]
+    got = call(texts, data, c, align, entry, int(sys.argv[6]) if len(sys.argv) > 6 else 0)
+    want = definition(kind, data, c)
+    sg = lambda x: x if x < (1 << 63) else x - (1 << 64)
+    print("kernel=%s definition=%d" % (sg(got), sg(want)))
